@@ -369,8 +369,9 @@ def _lemmas(c, candidates, assume, timeout_ms=5000):
     for cand in candidates:
         s = z3.Solver()
         s.set("timeout", timeout_ms)
-        s.add(*[a for a in assume if not isinstance(a, bool)])
-        s.add(z3.Not(cand))
+        cand_, assume_ = _de_uf(cand, assume)
+        s.add(*[a for a in assume_ if not isinstance(a, bool)])
+        s.add(z3.Not(cand_))
         t0 = time.time()
         r = s.check()
         c.solver_s += time.time() - t0
@@ -382,8 +383,31 @@ def _lemmas(c, candidates, assume, timeout_ms=5000):
     return out
 
 
+def _de_uf(claim, assume):
+    """replace every application of pysym's uninterpreted sqrt by a fresh real constant (in the claim and the assumptions, which
+    contain its defining axiom  a >= 0 => s >= 0 and s*s = a): a generalisation (sound for `unsat`), and it puts the query into pure
+    nonlinear real arithmetic where z3 is far quicker."""
+    fs = [f for f in [claim] + list(assume) if isz(f)]
+    apps, seen, stack = [], set(), list(fs)
+    while stack:
+        u = stack.pop()
+        if u.get_id() in seen:
+            continue
+        seen.add(u.get_id())
+        if z3.is_app(u) and u.decl().eq(pysym._SQRT) and not any(u.eq(a) for a in apps):
+            apps.append(u)
+        stack.extend(u.children())
+    if not apps:
+        return claim, list(assume)
+    subs = [(a, z3.Real(f"sqrt!{i}")) for i, a in enumerate(apps)]
+    # innermost first is not needed: arguments of these applications contain no further sqrt in this module
+    rw = lambda f: z3.substitute(f, *subs) if isz(f) else f  # noqa: E731
+    return rw(claim), [rw(a) for a in assume]
+
+
 def _prove_boxed(c, name, claim, assume, box, replay, key):
     """prove; when the solver's witness does not replay (ill-conditioned floats), ask again inside a well-conditioned box"""
+    claim, assume = _de_uf(claim, assume)
     nv, ni = len(c.violations), len(c.inconclusive)
     ok = c.prove(name, claim, assume, replay, key)
     if not ok and len(c.violations) == nv and len(c.inconclusive) > ni and "unknown" not in c.inconclusive[-1]:
